@@ -5,8 +5,8 @@ PROP = dict(
     level_note="Trusted: the sequential runtime as reference (its own semantics are C07/C10's business), the harness's in-memory storage engine, VNG writing/reading of the input (C03). Not covered: vector programs whose record-building operators meet many record types (cost K^(2^depth) in the vector runtime - bounded in the generator to keep the shared machine alive), chains of operators over missing fields (same blow-up), lateral over-bodies, unions under nulls and signalling NaNs (C03 findings), vam operators the compiler rejects (skipped and counted).",
     technique="differential property-based testing (rapid) with root-cause localisation; one deterministic lock-cycle construction",
     assumptions=["the in-memory storage engine stands in for file/S3 storage", "float inputs of sum() are quarter-valued so that sums are exact in any order (no tolerance needed)"],
-    tests=[dict(name="TestVamExpr", quick=(3, 350), thorough=(6, 6000)),
-           dict(name="TestVamOps", quick=(3, 350), thorough=(6, 6000)),
-           dict(name="TestVamLake", quick=(2, 30), thorough=(4, 500)),
+    tests=[dict(name="TestVamExpr", quick=(3, 350), thorough=(6, 3000)),
+           dict(name="TestVamOps", quick=(3, 350), thorough=(6, 3000)),
+           dict(name="TestVamLake", quick=(2, 30), thorough=(4, 300)),
            dict(name="TestVcacheFetch", quick=(1, 2), thorough=(1, 6))],
 )
